@@ -632,7 +632,9 @@ def run(ctx, prop):
     spec = factory()
     return {
         'stats': st, 'exhaustive': True,
-        'rule': 'explicit-state BFS to depth %d: every operation of the alphabet (append, insert at -3..3, +=, extend incl. generators and '
+        'rule': 'explicit-state BFS (C14: 4 roots = declared 3.0, undeclared, header maps reached by relocation, declared 2.0 with content-refused rows; incl. '
+                'operations from inside an iteration, index / count / contains observed in every state.  C15: three alphabets = str/int/Ref/duplicate/falsy ids, '
+                '7-digit and equal-but-differently-printed numeric ids, Uri / Bin ids and keys) to depth %d: every operation of the alphabet (append, insert at -3..3, +=, extend incl. generators and '
                 'lists with a non-dict in the middle, item assignment, del index/slice, pop, remove, reverse, clear, lookup by id as a '
                 'state-changing read) applied to every reachable state of a real Grid of at most %d rows, and to grids derived from reached '
                 'states by slicing and filtering; lock-step with a Python list of the same row objects; plus, for every state reached within 2 (3) steps, every (slice, one further operation on the source or on the derived grid) pair with the other grid re-checked against its own model; state = (row labels in order, '
